@@ -34,8 +34,10 @@ pub struct StorageSnapshot {
 
 impl StorageSnapshot {
     fn ensure_stats_cache_loaded(&self) {
+        vlock!("stats_cache", self.stats_cache);
         let mut cache = self.stats_cache.lock().unwrap();
         if cache.is_none() {
+            vread!("pager", self.pager);
             let pager = self.pager.read().unwrap();
             if let Ok(stats) = self.inner.get_statistics(&pager) {
                 *cache = Some(stats);
@@ -45,6 +47,7 @@ impl StorageSnapshot {
 
     fn cached_stats_clone(&self) -> Option<crate::stats::GraphStatistics> {
         self.ensure_stats_cache_loaded();
+        vlock!("stats_cache", self.stats_cache);
         self.stats_cache.lock().unwrap().clone()
     }
 }
@@ -54,6 +57,7 @@ impl GraphStore for GraphEngine {
 
     fn snapshot(&self) -> Self::Snapshot {
         let i2e = Arc::new(self.scan_i2e_records());
+        vpoint!("snapshot.after_i2e");
         let inner = self.begin_read();
         let tombstoned_nodes: HashSet<InternalNodeId> = collect_tombstoned_nodes(inner.runs());
         StorageSnapshot {
@@ -103,6 +107,7 @@ impl GraphSnapshot for StorageSnapshot {
         let index_name = format!("{}.{}", label, field);
 
         let def = {
+            vlock!("index_catalog", self.index_catalog);
             let catalog = self.index_catalog.lock().unwrap();
             catalog.get(&index_name)?.clone()
         };
@@ -116,6 +121,7 @@ impl GraphSnapshot for StorageSnapshot {
         prefix.extend_from_slice(&def.id.to_be_bytes());
         prefix.extend_from_slice(&encode_ordered_value(&storage_value));
 
+        vread!("pager", self.pager);
         let pager = self.pager.read().unwrap();
         let mut cursor = tree.cursor_lower_bound(&pager, &prefix).ok()?;
 
@@ -185,6 +191,7 @@ impl GraphSnapshot for StorageSnapshot {
             return None;
         }
 
+        vread!("pager", self.pager);
         let pager = self.pager.read().unwrap();
         let storage_val =
             read_node_property_from_store(&pager, self.inner.properties_root, iid, key)?;
@@ -201,6 +208,7 @@ impl GraphSnapshot for StorageSnapshot {
             return None;
         }
 
+        vread!("pager", self.pager);
         let pager = self.pager.read().unwrap();
         let storage_val =
             read_edge_property_from_store(&pager, self.inner.properties_root, edge, key)?;
@@ -211,6 +219,7 @@ impl GraphSnapshot for StorageSnapshot {
         let mut props = self.inner.node_properties(iid).unwrap_or_default();
 
         if self.inner.properties_root != 0 {
+            vread!("pager", self.pager);
             let pager = self.pager.read().unwrap();
             extend_node_properties_from_store(&pager, self.inner.properties_root, iid, &mut props)?;
         }
@@ -230,6 +239,7 @@ impl GraphSnapshot for StorageSnapshot {
             .unwrap_or_default();
 
         if self.inner.properties_root != 0 {
+            vread!("pager", self.pager);
             let pager = self.pager.read().unwrap();
             extend_edge_properties_from_store(
                 &pager,
